@@ -120,6 +120,16 @@ func (e *Exec) rnd(r string, underflow bool) string {
 			e.sol.Send("(declare-fun rerr (Real) Real)")
 		}
 		a = "(rerr " + rn + ")"
+		// rounding is monotone: instantiate r_i <= r_j => fl(r_i) <= fl(r_j) against earlier applications
+		if len(e.rerrArgs) < 80 {
+			for _, o := range e.rerrArgs {
+				if o == rn {
+					continue
+				}
+				e.sol.Send(fmt.Sprintf("(assert (and (=> (<= %s %s) (<= (+ %s (rerr %s)) (+ %s (rerr %s)))) (=> (<= %s %s) (<= (+ %s (rerr %s)) (+ %s (rerr %s))))))", o, rn, o, o, rn, rn, rn, o, rn, rn, o, o))
+			}
+			e.rerrArgs = append(e.rerrArgs, rn)
+		}
 	} else {
 		a = e.fresh("ra")
 		e.declare(a, "Real")
@@ -600,6 +610,15 @@ func (e *Exec) anchor(r, fl string) {
 	for _, c := range relAnchors {
 		l := realLit(c)
 		parts = append(parts, fmt.Sprintf("(=> (>= %s %s) (>= %s %s)) (=> (<= %s %s) (<= %s %s))", r, l, fl, l, r, l, fl, l))
+	}
+	// the float inputs of the harness are doubles, hence representable: rounding does not cross them
+	if e.relaxedUF {
+		for _, in := range e.inputs {
+			if in.Kind == "real" && len(parts) < 16 {
+				l := in.Sym
+				parts = append(parts, fmt.Sprintf("(=> (>= %s %s) (>= %s %s)) (=> (<= %s %s) (<= %s %s))", r, l, fl, l, r, l, fl, l))
+			}
+		}
 	}
 	e.sol.Send("(assert (and " + strings.Join(parts, " ") + "))")
 }
